@@ -120,6 +120,7 @@ pub struct Eut3 {
     pub sink: Rc<RefCell<Option<v3::MqttSink>>>,
     pub receipts: Rc<RefCell<Vec<Option<Receipt>>>>,
     pub streams: Rc<RefCell<Vec<Option<StreamFn>>>>,
+    pub noblock: Rc<crate::bed::v5::NoBlock>,
 }
 
 fn stop_kind(r: &Reason<AppErr>) -> StopKind {
@@ -356,7 +357,7 @@ pub fn enc_pub(p: &s3::Publish3, payload: &[u8]) -> Vec<u8> {
 
 impl Eut3 {
     fn new(role: Role, peer: Peer, app: Rc<App>) -> Self {
-        Eut3 { role, peer, app, done: Rc::new(Done::default()), sink: Rc::new(RefCell::new(None)), receipts: Rc::new(RefCell::new(Vec::new())), streams: Rc::new(RefCell::new(Vec::new())) }
+        Eut3 { role, peer, app, done: Rc::new(Done::default()), sink: Rc::new(RefCell::new(None)), receipts: Rc::new(RefCell::new(Vec::new())), streams: Rc::new(RefCell::new(Vec::new())), noblock: Rc::new(crate::bed::v5::NoBlock::default()) }
     }
 
     pub fn attach_server(pipeline: &SrvPipeline, app: Rc<App>, cfg: &Cfg3) -> Eut3 {
@@ -515,6 +516,27 @@ impl Eut3 {
                         Err(e) => SendRes::Err(send_err(e)),
                     }
                 })
+            }
+            SendKind::NoBlock => {
+                if !sink.is_ready() {
+                    return Box::pin(async { SendRes::Err(SendErr::NotReady) });
+                }
+                let nb = self.noblock.clone();
+                if !nb.registered.replace(true) {
+                    let (nb2, sink2) = (nb.clone(), sink.clone());
+                    sink.publish_ack_cb(move |id, disconnected| {
+                        if nb2.reenter.get() {
+                            let _ = (sink2.is_ready(), sink2.credit(), sink2.is_open());
+                        }
+                        nb2.acks.borrow_mut().push((s5::Ack5 { pid: id.get(), ..Default::default() }, disconnected));
+                    });
+                }
+                let mut b = sink.publish(ByteString::from(spec.topic));
+                if let Some(id) = spec.pid {
+                    b = b.packet_id(id);
+                }
+                let r = b.send_at_least_once_no_block(Bytes::from(spec.payload)).map_err(send_err);
+                crate::bed::v5::noblock_future(nb, r)
             }
             SendKind::Qos1 => {
                 let mut b = sink.publish(ByteString::from(spec.topic));
